@@ -357,6 +357,14 @@ func checkC07(w *World, r *Report) {
 	// locks know no context: whoever waits for a lock waits as long as its holder pleases.  So nothing that can take
 	// long - a call back into the evaluator, a channel operation, a sleep - happens while a lock is held, anywhere
 	// in the library
+	// an evaluation that waits for a lock nobody will release cannot be stopped by its context
+	r.include("C07.scope-", "C11.", "lookups and definitions on a scope chain never wait for each other forever: every scope has a mutex of its own, locks are taken child before parent and never twice", checkC11, func(rule string) bool {
+		switch rule {
+		case "C11.own-lock", "C11.no-reentry", "C11.order", "C11.pair":
+			return true
+		}
+		return false
+	})
 	readerEnvRule(w, r, "C07.reader-env")
 	tryShareRule(w, r, e, "C07.try-share")
 	r.rule("C07.lock-scope", "no mutex of the library is held across a call that can reach the evaluator, a blocking select, a channel receive or send, or time.Sleep: a second evaluation waiting for that lock cannot be cancelled")
